@@ -410,7 +410,8 @@ def gen_disagg(r: random.Random, partial=True):
             for o in offs:
                 e = month_end(*add_m(cur[0], cur[1], o - 1))
                 if not clean and r.random() < 0.12:
-                    e = e + datetime.timedelta(days=r.choice([-1, 1]))     # the day before / after a month end
+                    # the day before / after a month end (never before the first sub-period's end: that is finding H1)
+                    e = e + datetime.timedelta(days=r.choice([-1, 1]) if o > max(sub, step) else 1)
                 cells.append(CumulativeCell(period_start=ps, period_end=pe, evaluation_date=e, metadata=m,
                                             values={f: g.value(kinds[f], 3) for f in fields}))
             cur = add_m(ey, em, 1)
